@@ -14,6 +14,7 @@ import Driver.C14
 import Driver.C16
 import Driver.C17
 import Driver.C19
+import Driver.C20
 open Lean
 
 def dispatch (p op : String) (c i : Json) : Except String (Json × String) :=
@@ -34,6 +35,7 @@ def dispatch (p op : String) (c i : Json) : Except String (Json × String) :=
   | "C16" => D16.handle op c i
   | "C17" => D17.handle op c i
   | "C19" => D19.handle op c i
+  | "C20" => D20.handle op c i
   | _ => throw s!"unknown property {p}"
 
 def handleLine (line : String) : String :=
